@@ -285,7 +285,8 @@ func init() {
 		if v, ok := fr.i.path.memo[key]; ok {
 			return v
 		}
-		menu := []string{"", "x y"}
+		// "x y": whitespace in a name; "[a-aa]": a char class with an overlap that can be simplified; "a.com": an unescaped dot before a top-level domain
+		menu := []string{"", "x y", "[a-aa]", "a.com"}
 		v := menu[fr.i.path.choose(len(menu))]
 		fr.i.note(key, v)
 		fr.i.path.memo[key] = v
